@@ -513,7 +513,7 @@ func (e *Exec) harnessPrim(name string, args []Value) (Value, bool) {
 		k := e.chooseFree(int(cnt.sval()))
 		e.addInput(&InputVar{Name: n, Kind: "choice", Const: fmt.Sprint(k)})
 		return mkI64(int64(k)), true
-	case "vNondetString":
+	case "vNondetString", "vNondetStringN":
 		n := e.strArg(args[0], "nondet name")
 		mx := args[1].(Int)
 		if !mx.IsC {
@@ -522,7 +522,10 @@ func (e *Exec) harnessPrim(name string, args []Value) (Value, bool) {
 		if e.concrete != nil {
 			return lit(e.concrete[n]), true
 		}
-		k := e.chooseFree(int(mx.sval())) + 1
+		k := int(mx.sval())
+		if name == "vNondetString" {
+			k = e.chooseFree(int(mx.sval())) + 1
+		}
 		in := &InputVar{Name: n, Kind: "string"}
 		var ps []Piece
 		for j := 0; j < k; j++ {
